@@ -76,6 +76,9 @@ func Run(r *core.Run) {
 	for vi, v := range []string{`"https://x.example/my%20page"`, `"100%"`, `"50%% off"`, `["a%sb","%d","%v%"]`, `{"progress":"100%","n":1}`, `"{{.}} ${x} {0}"`, `"back\\slash \"quoted\""`, `"<a href=\"x\">&amp;</a>"`, "\"line\u2028sep\""} {
 		docs = append(docs, `{"publicKey":[`+k[0]+`],"homepage":`+v+`}`, `{"service":[`+s[0]+`],"m`+fmt.Sprint(vi)+`":`+v+`,"scalar":"v"}`)
 	}
+	// a key and a service with the same id (their id spaces are separate), in both positions of two-entry lists
+	docs = append(docs, `{"publicKey":[`+strings.Replace(k[0], `"id":"k1"`, `"id":"hub"`, 1)+`],"service":[{"id":"hub","type":"T","serviceEndpoint":"https://hub.example/"}]}`,
+		`{"publicKey":[`+k[0]+`,`+k[1]+`],"service":[{"id":"k2","type":"T","serviceEndpoint":"https://a.example/"},{"id":"s9","type":"U","serviceEndpoint":"https://b.example/"},{"id":"k1","type":"V","serviceEndpoint":"https://c.example/"}]}`)
 	// also-known-as URIs that are valid but not spelled the way a URL library would print them: they are data and must come back as written
 	for _, u := range []string{`"HTTPS://Upper.example/Me"`, `"https://x.example/jos\u00e9"`, `"https://x.example/me#"`, `"http://x.example/%7Euser"`, `"did:Example:ABC"`, `"https://x.example/a b"`} {
 		docs = append(docs, `{"publicKey":[`+k[0]+`],"alsoKnownAs":[`+u+`,"https://plain.example/"]}`, `{"alsoKnownAs":[`+u+`]}`)
